@@ -16,9 +16,30 @@ from rules import c02, c03
 OPTIONS = c02.OPTIONS
 
 
+def _unzip_of_possibly_empty(R, f: Fn) -> None:
+    """`a, b = zip(*pairs)` (also through map(list, ...)) has nothing to unpack when `pairs` is empty: an empty range of
+    periods (end before start) must be kept away from it."""
+    from fsa.match import entails
+    for n in f.cfg.nodes:
+        a = n.ast
+        if n.kind != 'stmt' or not isinstance(a, ast.Assign) or len(a.targets) != 1 or not isinstance(a.targets[0], (ast.Tuple, ast.List)):
+            continue
+        zs = [x for x in ast.walk(a.value) if is_call(x, 'zip') and len(x.args) == 1 and isinstance(x.args[0], ast.Starred)]
+        if not zs:
+            continue
+        src = zs[0].args[0].value
+        facts = f.guard_atoms(n.id)
+        nonempty = any(entails(facts, ast.parse(t_, mode='eval').body, tr) for (t_, tr) in
+                       ((f'len({text(src)}) > 0', True), (f'len({text(src)}) == 0', False), (text(src), True), (f'len({text(src)})', True)))
+        R.check(nonempty, f.q, f'unzip-empty:{text(src)}', f'`{text(a)[:50]}` runs only when `{text(src)}` is not empty',
+                f'`{text(a)[:60]}` unpacks zip(*{text(src)}) into {len(a.targets[0].elts)} names with no guard that `{text(src)}` is non-empty: an empty range '
+                f'of periods (end before start, or a span shorter than lags + leads) raises ValueError instead of returning empty lists', where=f.where(n))
+
+
 def r1_solve_loop(R) -> None:
     for q, extra in (('fsic.core.interfaces.SolverMixin.solve', []), ('fsic.core.linkers.BaseLinker.solve', ['submodels'])):
         f = Fn(R, q)
+        _unzip_of_possibly_empty(R, f)
         calls = f.nodes_with(lambda x: is_self_call(x, 'solve_t'))
         if not R.require(q, len(calls), 'self.solve_t(t, ...) per period', fi=f.fi, pred=pred_call_attr('solve_t')):
             continue
@@ -28,6 +49,9 @@ def r1_solve_loop(R) -> None:
         R.count_calls()
         lp = [f.cfg.nodes[i] for i in n.loops]
         if not lp:
+            in_comp = any(isinstance(c_, (ast.ListComp, ast.GeneratorExp, ast.DictComp, ast.SetComp)) and any(y is call for y in ast.walk(c_)) for c_ in ast.walk(n.ast))
+            if in_comp:
+                raise Unknown(f'{q}: self.solve_t() is called from a comprehension (`{n.label()[:50]}`): the order and pairing of periods and flags is not read there')
             R.violation(q, 'solve_t-not-in-loop', 'self.solve_t() is not called inside the period loop', where=f.where(n))
             continue
         loop = lp[-1]
